@@ -18,6 +18,9 @@ type C15Case struct {
 	Data   []byte `json:"data"`
 	Now    int64  `json:"now,omitempty"`
 	Origin string `json:"origin,omitempty"` // how the bytes were made (class label)
+	// Claim (http targets): when non-zero the hostile server announces this Content-Length, sends the data and
+	// closes the connection (a response header is untrusted input too)
+	Claim int64 `json:"claim,omitempty"`
 }
 
 var c15Child *hostileChild
@@ -43,7 +46,7 @@ func hostileCall(req hostileReq) hostileResp {
 const allocSlack = 1 << 20
 
 func runC15(c C15Case, ev *Evid) (fs []Finding) {
-	resp := hostileCall(hostileReq{Target: c.Target, Data: c.Data, Now: c.Now})
+	resp := hostileCall(hostileReq{Target: c.Target, Data: c.Data, Now: c.Now, Claim: c.Claim})
 	desc := fmt.Sprintf("target=%s origin=%s %d bytes %s", c.Target, c.Origin, len(c.Data), hexHead(c.Data, 48))
 	switch {
 	case resp.Timeout:
@@ -74,7 +77,7 @@ func runC15(c C15Case, ev *Evid) (fs []Finding) {
 	} else {
 		cls = append(cls, "rejected")
 	}
-	ev.Count(Hash64(c.Target, string(c.Data), c.Now), nontrivial, cls...)
+	ev.Count(Hash64(c.Target, string(c.Data), c.Now+c.Claim), nontrivial, cls...)
 	if nontrivial && ev.WantSample() && len(c.Data) < 200 {
 		ev.Sample(c)
 	}
@@ -308,6 +311,14 @@ func genC15(t *rapid.T) C15Case {
 		c.Now = rapid.Int64Range(1<<31, 1<<32-1<<26).Draw(t, "nowHigh")
 	}
 	valid := genValidBytesAt(t, c.Target, c.Now)
+	if strings.HasPrefix(c.Target, "http-") && rapid.IntRange(0, 4).Draw(t, "lyingLength") == 0 {
+		c.Claim = rapid.SampledFrom([]int64{int64(len(valid)) + 1, int64(len(valid)) + 4096, 1 << 26, 1 << 31, 1 << 40, 1 << 50, 1<<63 - 1}).Draw(t, "claim")
+		c.Data, c.Origin = valid, "valid+lying-content-length"
+		if rapid.Bool().Draw(t, "cutToo") && len(valid) > 0 {
+			c.Data = valid[:rapid.IntRange(0, len(valid)-1).Draw(t, "cutAt")]
+		}
+		return c
+	}
 	if c.Target == "file" && rapid.IntRange(0, 14).Draw(t, "hugeStep") == 0 {
 		// one archive, huge step x tiny count: retention around 2^31 .. 2^32; base interval aligned
 		// (clock realistic and step <= 2^30: now + 2 steps stays below 2^32, zone Z7)
@@ -318,6 +329,41 @@ func genC15(t *rapid.T) C15Case {
 		copy(b, EncodeWspHeader(uint32(rapid.IntRange(1, 6).Draw(t, "method")), uint32(step*pts), 0.5, []WspArchive{{Offset: 28, Step: uint32(step), Points: uint32(pts)}}))
 		binary.BigEndian.PutUint32(b[28:], uint32(alignDown(c.Now, step)))
 		c.Data, c.Origin = b, "huge-step-single-archive"
+		return c
+	}
+	if (c.Target == "file" || c.Target == "header") && rapid.IntRange(0, 11).Draw(t, "pairRule") == 0 {
+		// a 3-5 archive header with consistent offsets, lengths and retention whose only fault is ONE pairwise
+		// rule broken between two of the coarser archives (both still multiples of the finest step)
+		s0 := rapid.SampledFrom([]int64{1, 2, 10, 60}).Draw(t, "s0")
+		steps := []int64{s0, 2 * s0, 4 * s0, 8 * s0, 16 * s0}[:rapid.IntRange(3, 5).Draw(t, "pairArchives")]
+		pts := make([]int64, len(steps))
+		for i := range steps {
+			pts[i] = 4 + int64(i)
+		}
+		i := rapid.IntRange(1, len(steps)-2).Draw(t, "brokenPair")
+		switch rapid.IntRange(0, 3).Draw(t, "brokenRule") {
+		case 0, 1: // step i+1 not a multiple of step i (5 s0 after 2 s0, 6 s0 after 4 s0, ...)
+			steps[i+1] = steps[i]*2 + s0
+			for j := i + 2; j < len(steps); j++ {
+				steps[j] = steps[j-1] * 2
+			}
+		case 2: // retention not longer
+			pts[i+1] = steps[i] * pts[i] / steps[i+1]
+			if pts[i+1] < 1 {
+				pts[i+1] = 1
+			}
+		default: // too few points to consolidate one coarser slot
+			pts[i] = 1
+		}
+		var as []WspArchive
+		off := int64(16 + 12*len(steps))
+		for j := range steps {
+			as = append(as, WspArchive{Offset: uint32(off), Step: uint32(steps[j]), Points: uint32(pts[j])})
+			off += 12 * pts[j]
+		}
+		b := make([]byte, off)
+		copy(b, EncodeWspHeader(uint32(rapid.IntRange(1, 6).Draw(t, "method")), uint32(steps[len(steps)-1]*pts[len(steps)-1]), 0.5, as))
+		c.Data, c.Origin = b, "one-pair-rule-broken"
 		return c
 	}
 	if (c.Target == "file" || c.Target == "header") && rapid.IntRange(0, 9).Draw(t, "bigCount") == 0 {
@@ -448,7 +494,7 @@ func FuzzC15(f *testing.F) {
 			return
 		}
 		c := C15Case{Target: fuzzTargets[int(in[0])%len(fuzzTargets)], Data: in[1:], Now: 1500000000, Origin: "native-fuzz"}
-		resp := execHostile(hostileReq{Target: c.Target, Data: c.Data, Now: c.Now}, dir)
+		resp := execHostile(hostileReq{Target: c.Target, Data: c.Data, Now: c.Now, Claim: c.Claim}, dir)
 		var fs []Finding
 		if resp.Panic != "" {
 			fs = append(fs, Finding{Property: "C15", Key: "panic", Detail: fmt.Sprintf("target=%s %d bytes %s: panic in %s: %s", c.Target, len(c.Data), hexHead(c.Data, 48), resp.Where, resp.Panic)})
